@@ -324,6 +324,55 @@ Proof.
     + intro l. rewrite coef_add_all. cbn [coef_of]. lia.
 Qed.
 
+Lemma side_roundtrip_exact d : all_ok d -> parse_side (print_side d true) = Some (add_all (nz d) []).
+Proof.
+  intro Hok. rewrite print_side_true. unfold parse_side.
+  assert (Hnz : forall p, In p (nz d) -> label_ok (fst p)) by (intros p Hp; apply Hok; apply filter_In in Hp; apply Hp).
+  destruct (nz d) as [|p rest] eqn:E.
+  - reflexivity.
+  - destruct (print_term_props (fst p) (snd p) (Hnz p (or_introl eq_refl))) as (Hp & _ & _).
+    rewrite split_char_run by exact Hp. rewrite split_plus_terms by (intros q Hq; apply Hnz; right; exact Hq).
+    rewrite app_nil_r, rev_involutive.
+    set (toks := pterm p :: map (fun q => c_sp :: pterm q) rest).
+    assert (Ht : toks = map (fun q => if str_eqb (fst q) (fst q) then (match q with _ => c_sp :: pterm q end) else []) rest -> True) by auto. clear Ht.
+    assert (Hparse : parse_tokens toks [] = Some (add_all (p :: rest) [])).
+    { unfold toks. rewrite (parse_tokens_step _ _ _ (fst p) (snd p)).
+      - cbn [add_all fold_left]. apply (parse_tokens_terms (fun q => c_sp :: pterm q)).
+        intros q Hq. rewrite token_term_leading_space. apply pterm_roundtrip. apply Hnz. right. exact Hq.
+      - rewrite <- surjective_pairing. apply pterm_roundtrip. apply Hnz. left. reflexivity. }
+    destruct rest as [|q rest']; [|exact Hparse].
+    (* a single token: the code first tests whether it is blank *)
+    unfold toks in *. cbn [map] in *. destruct (split_ws (pterm p) []) eqn:Ew; [|exact Hparse].
+    pose proof (pterm_roundtrip p (Hnz p (or_introl eq_refl))) as Hr. unfold token_term in Hr. rewrite Ew in Hr. discriminate.
+Qed.
+
+(* orders survive the round trip: the parsed side has the coefficient sum of the printed one *)
+Lemma side_order_add_coef l z d : side_order (add_coef l z d) = (side_order d + z)%Z.
+Proof.
+  unfold side_order. induction d as [|[l' c] d IH]; [cbn; lia|]. cbn [add_coef]. destruct (str_eqb l l'); cbn [map fold_right snd] in *; lia.
+Qed.
+
+Lemma side_order_add_all ps d : side_order (add_all ps d) = (side_order d + fold_right Z.add 0 (map snd ps))%Z.
+Proof.
+  revert d. induction ps as [|[l z] ps IH]; intro d; [unfold add_all; cbn [fold_left map fold_right]; lia|]. cbn [add_all fold_left fst snd]. fold (add_all ps (add_coef l z d)).
+  rewrite IH, side_order_add_coef. cbn [map fold_right snd]. lia.
+Qed.
+
+Lemma side_order_nz d : fold_right Z.add 0 (map snd (nz d)) = side_order d.
+Proof.
+  unfold side_order, nz. induction d as [|[l z] d IH]; [reflexivity|]. cbn [filter map fold_right snd].
+  destruct (Z.eqb_spec z 0) as [->|Hz]; cbn [negb map fold_right snd]; lia.
+Qed.
+
+Theorem side_roundtrip_order d : all_ok d -> exists d', parse_side (print_side d true) = Some d' /\ side_order d' = side_order d
+  /\ forall l, coef_of l d' = written l (nz d).
+Proof.
+  intro H. exists (add_all (nz d) []). split; [apply side_roundtrip_exact; exact H|]. split.
+  - rewrite side_order_add_all, side_order_nz. cbn. lia.
+  - intro l. rewrite coef_add_all. cbn [coef_of]. lia.
+Qed.
+
+
 Lemma coef_of_notin l d : ~ In l (map fst d) -> coef_of l d = 0%Z.
 Proof.
   induction d as [|[l0 z0] d IH]; intro H; [reflexivity|]. cbn [coef_of]. rewrite str_eqb_neq.
@@ -433,5 +482,22 @@ Proof.
   rewrite parse_side_leading_space.
   destruct (side_roundtrip (fst r) H1) as (a & Ea & Ca). destruct (side_roundtrip (snd r) H2) as (b & Eb & Cb).
   rewrite Ea, Eb. exists (a, b). split; [reflexivity|]. intro l. cbn [fst snd].
+  rewrite Ca, Cb, (written_nz_nodup l _ N1), (written_nz_nodup l _ N2). split; reflexivity.
+Qed.
+
+(* ... with the orders: the parsed equation has the reactant and product coefficient sums of the printed one *)
+Theorem parse_print_eq_order r : all_ok (fst r) -> all_ok (snd r) -> NoDup (map fst (fst r)) -> NoDup (map fst (snd r)) ->
+  exists r', parse_eq (print_eq r) = Some r' /\ side_order (fst r') = side_order (fst r) /\ side_order (snd r') = side_order (snd r) /\
+    forall l, coef_of l (fst r') = coef_of l (fst r) /\ coef_of l (snd r') = coef_of l (snd r).
+Proof.
+  intros H1 H2 N1 N2. unfold parse_eq, print_eq.
+  change ([c_minus; c_gt; c_sp] ++ print_side (snd r) true) with (c_minus :: c_gt :: (c_sp :: print_side (snd r) true)).
+  rewrite (split_arrow_run _ (print_side_no_arrow _ H1)). cbn [rev app].
+  assert (Ha2 : has_arrow (c_sp :: print_side (snd r) true) = false).
+  { rewrite has_arrow_cons, (print_side_no_arrow _ H2). destruct (print_side (snd r) true); reflexivity. }
+  rewrite (split_arrow_none _ Ha2). cbn [rev app].
+  rewrite parse_side_leading_space.
+  destruct (side_roundtrip_order (fst r) H1) as (a & Ea & Oa & Ca). destruct (side_roundtrip_order (snd r) H2) as (b & Eb & Ob & Cb).
+  rewrite Ea, Eb. exists (a, b). split; [reflexivity|]. cbn [fst snd]. split; [exact Oa|]. split; [exact Ob|]. intro l.
   rewrite Ca, Cb, (written_nz_nodup l _ N1), (written_nz_nodup l _ N2). split; reflexivity.
 Qed.
